@@ -1141,3 +1141,131 @@ mod tests {
         }
     }
 }
+
+/// Verification hooks (`--cfg nextest_verif`): expose, as plain data, what
+/// `SetupScripts::new_with_queries`, `SetupScript::is_enabled` and
+/// `SetupScriptExecuteData::apply` compute for a profile and a list of test queries.
+#[cfg(nextest_verif)]
+pub mod verif_scripts {
+    use super::*;
+    use std::collections::BTreeMap;
+
+    /// One compiled `[[profile.<name>.scripts]]` rule of the profile (profile-specific rules
+    /// first, then the default profile's), with its platform evaluations and, per query, the
+    /// verdict of its filter alone and of `CompiledProfileScripts::is_enabled`.
+    #[derive(Clone, Debug)]
+    pub struct RuleView {
+        /// The script ids listed by the rule, in the order written.
+        pub setup: Vec<String>,
+        /// `host` platform spec evaluated against the host platform.
+        pub host_eval: bool,
+        /// `target` platform spec evaluated against the host platform.
+        pub host_test_eval: bool,
+        /// `target` platform spec evaluated against the target platform.
+        pub target_eval: bool,
+        /// Whether the rule has a `filter`.
+        pub has_filter: bool,
+        /// Per query: whether the filter (if any) matches.
+        pub filter_matches: Vec<bool>,
+        /// Per query: `CompiledProfileScripts::is_enabled`.
+        pub is_enabled: Vec<bool>,
+    }
+
+    /// The result of [`evaluate`].
+    #[derive(Clone, Debug)]
+    pub struct ScriptsView {
+        /// Ids of all defined scripts, in the order of `script_config()`.
+        pub defined: Vec<String>,
+        /// The compiled rules of the profile.
+        pub rules: Vec<RuleView>,
+        /// Ids of the scripts returned by `SetupScripts::new_with_queries`, in run order.
+        pub enabled: Vec<String>,
+        /// Per enabled script (same order), per query: `SetupScript::is_enabled`.
+        pub enabled_for: Vec<Vec<bool>>,
+        /// Per query: the environment set on a fresh command by
+        /// `SetupScriptExecuteData::apply`, sorted by key.
+        pub applied: Vec<Vec<(String, String)>>,
+    }
+
+    /// Runs the real `SetupScripts::new_with_queries` with `selected` (indexes into `queries`, in
+    /// the given order) as the matching tests, then builds a `SetupScriptExecuteData` holding,
+    /// in run order, every enabled script that has an entry in `env_maps`, and applies it to every
+    /// query.
+    pub fn evaluate(
+        profile: &EvaluatableProfile<'_>,
+        queries: &[TestQuery<'_>],
+        selected: &[usize],
+        env_maps: &BTreeMap<String, BTreeMap<String, String>>,
+    ) -> ScriptsView {
+        let cx = profile.filterset_ecx();
+        let defined = profile
+            .script_config()
+            .keys()
+            .map(|id| id.to_string())
+            .collect();
+        let rules = profile
+            .compiled_data
+            .scripts
+            .iter()
+            .map(|rule| RuleView {
+                setup: rule.setup.iter().map(|id| id.to_string()).collect(),
+                host_eval: rule.state.host_eval,
+                host_test_eval: rule.state.host_test_eval,
+                target_eval: rule.state.target_eval,
+                has_filter: rule.data.expr.is_some(),
+                filter_matches: queries
+                    .iter()
+                    .map(|q| {
+                        rule.data
+                            .expr
+                            .as_ref()
+                            .map_or(true, |expr| expr.matches_test(q, &cx))
+                    })
+                    .collect(),
+                is_enabled: queries.iter().map(|q| rule.is_enabled(q, &cx)).collect(),
+            })
+            .collect();
+
+        let scripts =
+            SetupScripts::new_with_queries(profile, selected.iter().map(|&ix| queries[ix]));
+        let mut enabled = Vec::new();
+        let mut enabled_for = Vec::new();
+        let mut data = SetupScriptExecuteData::new();
+        for script in scripts.into_iter() {
+            enabled.push(script.id.to_string());
+            enabled_for.push(queries.iter().map(|q| script.is_enabled(q, &cx)).collect());
+            if let Some(env_map) = env_maps.get(&script.id.to_string()) {
+                data.add_script(
+                    script,
+                    SetupScriptEnvMap {
+                        env_map: env_map.clone(),
+                    },
+                );
+            }
+        }
+
+        let applied = queries
+            .iter()
+            .map(|q| {
+                let mut command = Command::new("verif-no-such-program");
+                data.apply(q, &cx, &mut command);
+                let mut envs: Vec<(String, String)> = command
+                    .get_envs()
+                    .filter_map(|(k, v)| {
+                        Some((k.to_str()?.to_owned(), v?.to_str()?.to_owned()))
+                    })
+                    .collect();
+                envs.sort();
+                envs
+            })
+            .collect();
+
+        ScriptsView {
+            defined,
+            rules,
+            enabled,
+            enabled_for,
+            applied,
+        }
+    }
+}
